@@ -331,6 +331,36 @@ def run(spec, ctx):
                     if bad:
                         ctx.violation("view-lists-another-query's-matches", {"kind": "key-twins"}, {"document": repr(kdocs[i]), "query": text, "pointers": [str(x) for x in ptrs], "expected": [str(m.pointer()) for m in ms]})
                         return
+        # the views over documents whose member names come from the hostile pool (backslashes, text that looks like an escape,
+        # leading blanks, digits beyond the index limit, '~' and '/'): each view entry must be the location of ITS match -
+        # the pointer by its tokens, compared with the match's own parts, not only by how it prints
+        from rt import gen as _gen
+        from rt import ref_pointer as _rp
+
+        pool = list(_gen.ALL_NAMES) + ["C:\\temp\\new.txt", "C:\\users", "tab\\t", "a\\/b", " lead", "\tlead", "\u00a0lead", "9" * 20, "-1", "+1", "01"]
+        for start in range(0, len(pool), 6):
+            names = pool[start:start + 6]
+            hdoc = {"files": {nm: {"v": i, nm: [i]} for i, nm in enumerate(names)}, "list": [{nm: 1} for nm in names]}
+            for text in ("$.files.*", "$..*", "$.list[*].*", "$.files.*.*"):
+                for chain in ((), (("skip", 1),), (("limit", 3),), (("tail", 2),)):
+                    ctx.evaluation()
+
+                    def build():
+                        q = jsonpath.query(text, hdoc)
+                        for op_, n_ in chain:
+                            q = getattr(q, op_)(n_)
+                        return q
+                    ms = list(jsonpath.finditer(text, hdoc))
+                    for op_, n_ in chain:
+                        ms = ms[n_:] if op_ == "skip" else (ms[:n_] if op_ == "limit" else ms[-n_:])
+                    o = impl.call(lambda: list(build().pointers()))
+                    ctx.count("pointer_views_over_hostile_names")
+                    want = [[str(p_) for p_ in m.parts] for m in ms]
+                    got = [[str(p_) for p_ in x.parts] for x in o.value] if o.ok else None
+                    if got != want or any(str(x) != _rp.encode(w) for x, w in zip(o.value, want)):
+                        i_ = next((k for k, (a, b) in enumerate(zip(got or [], want)) if a != b), 0)
+                        ctx.violation("pointers-view-does-not-list-the-matches'-own-locations", {"kind": "key-twins"}, {"query": text, "chain": [list(c) for c in chain], "outcome": o.desc() if not o.ok else None, "first_difference": {"got": got[i_] if got and i_ < len(got) else None, "want": want[i_] if i_ < len(want) else None}})
+                        return
         paths = [jsonpath.compile(t) for t in ("$.items[?@.price <= $.budget]", "$.items[?@.price <= _.budget].price", "$..[?@.price > $.floor && @.price <= _.budget]", "$.items[?@.price <= $.budget] | $.items[?@.price > $.budget]")]
         for _ in range(spec["count"]):
             cp = r.choice(paths)
